@@ -249,7 +249,13 @@ impl PlutusList {
             None => self.elems.is_empty(),
         };
         if use_definite_encoding {
-            serializer.write_array(cbor_event::Len::Len(self.elems.len() as u64))?;
+            // the declared length is the number of elements really written
+            let written_len = if need_deduplication {
+                self.deduplicated_view().len()
+            } else {
+                self.elems.len()
+            };
+            serializer.write_array(cbor_event::Len::Len(written_len as u64))?;
         } else {
             serializer.write_array(cbor_event::Len::Indefinite)?;
         }
